@@ -131,6 +131,9 @@ func CSVDatabase(dbStream io.Reader, cdc CSVDatabaseConfig) error {
 	defer r.Flush()
 
 	return parser.ParseStreamCallback(dbStream, cdc.ParserConfig, func(n *shared.ParserNode, err error) (stop bool, cbError error) {
+		if err != nil {
+			return true, err
+		}
 		if err := r.Process(shared.NewDBNodeFromNode(n)); err != nil {
 			return true, err
 		}
